@@ -262,6 +262,12 @@ class STensor(Symbolic):
             if r.dtype != self.dtype:
                 if self.dtype == "real":
                     r = STensor(r.shape_, r.elem_real, "real")
+                elif self.dtype == "bool" and o.dtype == "bool" and name in ("add", "mul"):
+                    # torch: `+` / `*` of two boolean tensors are `or` / `and` (a boolean result)
+                    rf = r.fn
+                    r = STensor(r.shape_, lambda idx: rf(idx) != 0, "bool")
+                elif self.dtype == "bool" and o.dtype == "real":
+                    ops.raise_(RuntimeError, "result type Float can't be cast to the desired output type Bool", node=node)
                 else:
                     raise OutOfSubset("in-place tensor operator changing the element type", node)
             self._write(it, r.fn)
